@@ -24,6 +24,9 @@ CHECKS = {
  "C04": dict(level="fault_enumeration", tech="fault injection enumerated over every storage call and server request of a sync, on generated lead-up histories (proptest); differential against the fault-free run + replica invariant",
    text="For each generated scenario the interrupted replica's sync is first run in counting mode, then re-run once per storage-call index x {error, process stop} and per server-request index x {error before effect, effect then lost reply}, plus generated sequences of consecutive faults, on in-memory and (subset) SQLite with reopen. Oracle: replica invariant right after the fault; retry Ok; converged state AND chain operation sequence identical to the fault-free run; nothing sent twice. Exhaustive over injection points per scenario, sampled over scenarios.",
    note="Process stop = the sync future is dropped at a storage call (uncommitted transaction abandoned); server = harness ModelServer.", ref="4/C04"),
+ "C13": dict(level="exploration", tech="differential testing against an independent implementation of the documented scheme (hand-written PBKDF2-HMAC-SHA256 + ChaCha20-Poly1305, RFC-vector self-tested) + exhaustive tamper sweep + inspection of what the backends store",
+   text="Per generated (secret, salt): values sealed by the crate open with the independent implementation under key = PBKDF2(secret, salt, 600000), AAD = 0x01||version id, and vice versa; nonces pairwise distinct; EVERY byte x {xor 1, 0x80, 0xff}, EVERY truncation, extensions, every single-bit change of the version id, foreign app id, other secret/salt must be rejected. Objects in the in-memory object store and files in the git working tree after real syncs open with the independent implementation bound to their own version id, contain no marker plaintext, and a flipped bit / re-labelled object makes the Server call fail.",
+   note="HTTP request bodies are checked with the same oracle in the HTTP campaign (see notes).", ref="4/C13"),
  "C14": dict(level="exploration", tech="property-based testing: exact wire-format validator (independent JSON + RFC 3339 parser) over transmitted versions; grammar-based generation of foreign documents with reference replay",
    text="Outbound: every version the harness server receives is checked field by field (only Create/Delete/Update, exact field sets, string-or-null values, RFC 3339 Z timestamps equal to the committed instant) and the concatenation must equal the committed operations minus undo points. Inbound: documents from a grammar (permuted fields, whitespace, \\uXXXX escapes, 0-9 fractional digits) must be applied as the reference model says.",
    note="Plaintext observed at the Server trait boundary; inbound documents use the 'operations' wrapper; malformed documents out of scope.", ref="4/C14"),
@@ -54,6 +57,18 @@ CHECKS = {
  "C15": dict(level="exploration", tech="stateful property-based testing with a relational oracle (old working set -> new working set) derived from the statement",
    text="Generated histories of status changes through Task::set_status, bare creations, outright deletes, remote changes arriving by sync, undo, sync and rebuilds in both modes, on both storages; after every rebuild: slot 0 empty, membership == pending/recurring tasks exactly once, numbers kept (no renumber) or 1..n gap-free in the old relative order (renumber), newcomers last; after every commit: nobody moves and newly pending tasks are appended.",
    note="Order among newcomers unspecified; a newcomer may reuse a dropped trailing number.", ref="4/C15"),
+ "C08": dict(level="exploration", tech="model-based property testing of the public Server trait: generated call sequences on 6 backend configurations against ONE reference chain model; whole replicas through each backend with chain-walk replay",
+   text="Generated sequences of add-version / get-child-version / add-snapshot / get-snapshot from 1-3 handles (parents: latest, nil, older, never-seen; payloads empty, random incl. invalid UTF-8, 100 kB-2 MB) on local (1 and 2 handles), git local-only, git with a shared bare remote and two clones, object store over the in-memory store, and the real HTTP client against a server written from http.md; accept iff parent == latest, rejection names latest and changes nothing (every known parent read back), children returned byte for byte, snapshots intact. Second campaign: two real replicas through each backend must equal the replay of a walk of the backend's chain.",
+   note="HTTP server is the harness's reading of http.md; git-with-remote may reject a correct parent once when the remote has an unrelated new commit (tolerated if nothing changed and the retry is accepted).", ref="4/C08"),
+ "C09": dict(level="exploration", tech="property-based testing over generated request-level schedules (deterministic scheduler through the in-memory object store's gate) + exhaustive enumeration of all 2-client schedules for short scripts; history invariants vs. the final chain",
+   text="2-4 object-store clients with generated scripts (add on current/stale view, get-child, add-snapshot, walk) interleaved at single get/put/del/list-page/compare-and-swap granularity with list page size 1-3: accepted parents pairwise distinct, every accepted version on the final chain in compare-and-swap order with its bytes, everything any client ever received is on the final chain, rejections name accepted versions, no loser is ever served. All binary schedules of three 2-client script pairs are enumerated exhaustively.",
+   note="Store linearizable per request; cleanup pinned off (C10).", ref="4/C09"),
+ "C10": dict(level="exploration", tech="property-based testing over generated schedules of cleanup runs interleaved with add-version/add-snapshot/cleanup at request granularity, with generated object ages and partial cleanups; retention-rule oracle on the final store + real replicas",
+   text="Initial stores with an old prefix / recent suffix, snapshots at generated positions, orphans and a replica synced at every initial version; clients run add-version, add-snapshot, cleanup (optionally failing at its k-th request); at quiescence: a snapshot on the chain remains if any was stored, every deleted version was old AND covered by a retained snapshot, no candidate child of latest deleted, the chain after every retained snapshot is retrievable, fresh and (non-deletable-based) old replicas sync to the latest state.",
+   note="Creation times non-decreasing along the chain; retention age measured against the real clock with margins of days.", ref="4/C10"),
+ "C11": dict(level="fault_enumeration", tech="fault injection enumerated over every internal step (named failpoints / object-store requests) of add_version and add_snapshot per backend x {error, stop / lost reply}, on generated scenarios, followed by restart, protocol probes and a generated continuation",
+   text="For generated scenarios on local, object store, git local-only and git with remote (optionally with a racing replica landing between pull and push, optionally an interrupted add_snapshot), the steps of the interrupted call are counted in a fault-free run and then EVERY step x kind is injected; after dropping all handles and reopening: walk = single chain, head accepts a child, every other parent is rejected naming the head, then all three replicas continue with a generated history, every sync Ok, convergence to the replay of a final walk.",
+   note="Stop at a failpoint = unwinding out of the call; object-store requests atomic.", ref="4/C11"),
  "C12": dict(level="exploration", tech="property-based testing: generated histories with Unicode content and urgency scripts; independent snapshot decoder vs. chain replay at the snapshot's version",
    text="Every snapshot the harness server receives is decoded independently (zlib+JSON) and compared with the reference replay of the chain up to exactly its version; snapshots only directly after an accepted version whose urgency met the threshold; fresh replicas from snapshot + later versions equal the full replay; non-empty replicas never take over an offered snapshot.",
    note="Plaintext observed at the Server trait boundary; bounded histories.", ref="4/C12"),
